@@ -1,6 +1,7 @@
 package main
 
 import (
+	"encoding/json"
 	"flag"
 	"fmt"
 	"os"
@@ -24,6 +25,8 @@ func main() {
 		cmdFuncs(os.Args[2:])
 	case "effects":
 		cmdEffects(os.Args[2:])
+	case "list":
+		cmdList()
 	case "mutate":
 		os.Exit(cmdMutate(os.Args[2:]))
 	default:
@@ -110,4 +113,17 @@ func cmdDump(args []string) {
 			}
 		}
 	}
+}
+
+func cmdList() {
+	type row struct {
+		ID, Level, Explanation, NotDecided string
+	}
+	var rows []row
+	for id, pi := range props {
+		rows = append(rows, row{id, pi.Level, pi.Explanation, pi.NotDecided})
+	}
+	sort.Slice(rows, func(i, j int) bool { return rows[i].ID < rows[j].ID })
+	b, _ := json.MarshalIndent(rows, "", " ")
+	fmt.Println(string(b))
 }
